@@ -352,6 +352,25 @@ def _run_detector(desc):
             sh.violation("detector-round-trip[position components cancel]", {"kind": "detector", "pars": dict(p2, omegasign=osn), "tth": tth[sub][i], "eta": eta[sub][i],
                                                                            "omega": om[sub][i]}, {"tth_back": t3[i], "eta_back": e3[i]})
         sh.evaluations += len(t3)
+        # history: the NEXT projection differs from the one just made in ONE detector parameter only (a refinement step, a tilt scan):
+        # each parameter in turn, each time straight after a call with the unchanged set
+        few = slice(idx % 7, None, 7)
+        for name, step in (("tilt_x", 0.013), ("tilt_y", -0.011), ("tilt_z", 0.009), ("distance", 0.01 * p["distance"]), ("y_center", 3.5), ("z_center", -2.5),
+                           ("y_size", 0.02 * p["y_size"]), ("z_size", -0.02 * p["z_size"]), ("wedge", 0.7), ("chi", -0.6), ("t_x", 0.004 * abs(p["distance"]))):
+            tr.compute_xyz_from_tth_eta(tth[few], eta[few], om[few], **p)
+            p4 = dict(p)
+            p4[name] = p[name] + step
+            fc4, sc4 = tr.compute_xyz_from_tth_eta(tth[few], eta[few], om[few], **p4)
+            t4, e4 = tr.compute_tth_eta(np.array([sc4, fc4]), omega=om[few], **p4)
+            dt = np.abs(t4 - tth[few])
+            de = np.abs((e4 - eta[few] + 180) % 360 - 180)
+            if not np.isfinite(t4).all() or dt.max() > 1e-8 or (de * np.sin(np.radians(tth[few]))).max() > 1e-8:
+                i = int(np.argmax(dt + de))
+                sh.violation("detector-round-trip[straight after a call that differs in %s only]" % name,
+                             {"kind": "detector", "pars": dict(p4, omegasign=osn), "tth": tth[few][i], "eta": eta[few][i], "omega": om[few][i],
+                              "previous_call": {name: p[name]}}, {"tth_back": t4[i], "eta_back": e4[i]})
+                break
+            sh.evaluations += len(t4)
     sh.sample({"kind": "detector", "pars": pars}, limit=1)
     return sh
 
